@@ -242,7 +242,9 @@ async fn body(sc: &Sc, args: watchexec_cli::args::Args, default_schedule: bool) 
 		if sent < sc.changes {
 			menu.push(Act::Change);
 		}
-		if !alive.is_empty() && exits < 2 {
+		// (kill-fault scenarios: the command never ends by itself, so that a job task left
+		// waiting on it after a failed kill is not released by the script)
+		if !alive.is_empty() && exits < 2 && sc.kill_fault.is_none() {
 			menu.push(Act::Exit);
 		}
 		if now < sc.horizon {
